@@ -30,6 +30,7 @@ var rejectedInputs = []string{
 	"", "(1+", "1 +", "[1,2", "{'a':1", "'abc", "`x{1", "1 2 @", "@", "）", "1 + * 2", "a(1+1+23=3", "x = ", "if 1 {", "while", "func f(",
 	"(1 +\n\n2 @\n3)", "(1 +\n2 +\n\n\n3 @\n4)", "(1 +\n", "[1,\n\n\n 2,\n 3 @]", "(\r\n\r\n1 +\r\n @)", "{'a':\n\n\t\t1 @}", "(力量 +\n\n  敏捷 @ 3)", "[1,\n2,\n\n3,\n\n\n4 4]", "(\n\n\n\n)", "`{\n\n1 +}`",
 	"力量 + ", "1 +\n  2 +\n  (3", "'多字节文本' + (", "abc\ndef\n  ghi + ", "\n\n1 +", "x = 1\ny = (2", "# bad", "1 ? ", "[1..", "a.b.", "d +",
+	"^st力量＝50", "^st。", "＋％", "`{1，}`", " ，1", "^st hp：3", "1 +，", "x = 1；", "^st 力量＋", "a ＞", "^st敏捷（", "1 ％ 2 ＠", "力量 ＆",
 	strings.Repeat("x", 70) + " + (", strings.Repeat("长", 30) + " + ", "1 +" + strings.Repeat(" ", 80), "\t\t(", "\"\\", "1d", "^st",
 }
 
@@ -140,8 +141,45 @@ func c11GenMode(mode string) func(seed uint64, tier string) any {
 
 // errorLanguageOK checks that a syntax-error text is written only in the configured language.
 func errorLanguageOK(text string, lang int) (bool, string) {
+	return errorLanguageOKFor(text, lang, "")
+}
+
+// errorLanguageOKFor also looks at the wording: an English-only message holds no Han character or
+// full-width punctuation, a Chinese-only message no English word, except what the message quotes
+// from the input (src; "" = not checked).
+func errorLanguageOKFor(text string, lang int, src string) (bool, string) {
 	if !strings.Contains(text, "语法错误") && !strings.Contains(text, "Syntax Error") {
 		return true, "" // not a formatted syntax error
+	}
+	if src != "" {
+		switch lang {
+		case ds.ParseErrorLanguageEnglish:
+			for _, r := range text {
+				cjk := r >= 0x4E00 && r <= 0x9FFF || r >= 0x3000 && r <= 0x303F || r >= 0xFF00 && r <= 0xFFEF
+				if cjk && !strings.ContainsRune(src, r) {
+					return false, fmt.Sprintf("english-only message contains %q, which is not quoted from the input", string(r))
+				}
+			}
+		case ds.ParseErrorLanguageChinese:
+			word := ""
+			flush := func() string {
+				w := word
+				word = ""
+				if len(w) >= 4 && !strings.Contains(src, w) {
+					return w
+				}
+				return ""
+			}
+			for _, r := range text + " " {
+				if r >= 'a' && r <= 'z' || r >= 'A' && r <= 'Z' {
+					word += string(r)
+					continue
+				}
+				if w := flush(); w != "" {
+					return false, fmt.Sprintf("chinese-only message contains the english word %q, which is not quoted from the input", w)
+				}
+			}
+		}
 	}
 	hasEn := strings.Contains(text, "Syntax Error") || strings.Contains(text, "  Pos ")
 	hasCn := strings.Contains(text, "语法错误") || strings.Contains(text, "  位置 ")
@@ -303,7 +341,11 @@ func c11Exec(raw json.RawMessage, res *RunResult) {
 			key = append(key, t.Cmds[j].Src)
 			dg.Add("task", fmt.Sprint(i), fmt.Sprint(j), b.Key())
 			if b.Err != "" {
-				if ok, why := errorLanguageOK(b.Err, lang); !ok {
+				wording := t.Cmds[j].Src
+				if usesBrokenBody(wording) {
+					wording = brokenSnapshot // the quoted line comes from a restored body
+				}
+				if ok, why := errorLanguageOKFor(b.Err, lang, wording); !ok {
 					res.Violate("lang-leak", "task %d (language %d at this command) got an error text in another language under the schedule: %s\n  src=%q\n  text=%q", i, lang, why, t.Cmds[j].Src, b.Err)
 				}
 				if sc.Mode == "c19" {
@@ -318,7 +360,7 @@ func c11Exec(raw json.RawMessage, res *RunResult) {
 					} else if ok, why := errorGeometryOK(b.Err, t.Cmds[j].Src); !ok {
 						res.Violate("geometry", "error position inconsistent with input: %s\n  src=%q\n  text=%q", why, t.Cmds[j].Src, b.Err)
 					}
-					if ok, why := errorLanguageOK(a.Err, lang); !ok {
+					if ok, why := errorLanguageOKFor(a.Err, lang, wording); !ok {
 						res.Violate("lang-wrong-alone", "task %d (language %d at this command) alone: %s\n  src=%q\n  text=%q", i, lang, why, t.Cmds[j].Src, a.Err)
 					}
 					res.Probe("rejected_input")
